@@ -9,7 +9,7 @@ def run(tier, seed, update_ledger=False, only=None, jobs=None):
     return run_check("C05", hs, tier=tier, seed=seed, update_ledger=update_ledger, jobs=jobs,
                      unbounded_in=["all input, parameter and context values"],
                      bounded_in={"event shapes": "[2], [2,2], [1,2]", "Bernoulli dimension": "1, 2 (exact summation over {0,1}^D)"},
-                     not_decided=["torch.distributions.Categorical inside MixtureOfGaussiansMADE.sample is an assumed contract (integer draws in range); BoxUniform runs through the real torch.distributions.Uniform / Independent code (pure Python over torch ops); outside the half-open box the log-density is -inf, which real-arithmetic terms cannot carry: that part, and the rejection sampler of LotkaVolterraOscillating (data-dependent number of iterations), are checked by a bounded native enumeration (uniform_priors_native, labelled bounded)",
+                     not_decided=["torch.distributions.Categorical inside MixtureOfGaussiansMADE.sample is an assumed contract (integer draws in range); BoxUniform runs through the real torch.distributions.Uniform / Independent code (pure Python over torch ops); outside the half-open box the log-density is -inf, which real-arithmetic terms cannot carry: that part, and the rejection sampler of LotkaVolterraOscillating (data-dependent number of iterations), are checked by a bounded native enumeration (uniform_priors_native, labelled bounded); MG1Uniform: outside its support torch raises by convention (excluded by the precondition noise-in-box); double-precision values raise a dtype error in the float32 shear constants (native replays in float32)",
                                   "'samples follow the density' is derived from the sampling-parameter clauses plus the RNG contract, not tested statistically"],
                      assumptions=["a product of normalised one-dimensional conditionals is a normalised joint density (lemma 4f)", "the textbook closed forms are normalised, and mu + sigma z with z ~ N(0,1) has the Gaussian density with that location and scale (lemma 4g)",
                                   "erf is uninterpreted: normaliser terms are compared through their arguments", "torch.randn / torch.rand are i.i.d. N(0,1) / U[0,1)"])
